@@ -253,3 +253,15 @@ _targets_before_purity = targets
 def targets():      # noqa: F811
     from . import purity
     return _targets_before_purity() + [purity.target_modules(["analysis/fitting"], "fitting module keeps no state between calls")]
+
+
+_targets_before_copies = targets
+
+
+def targets():      # noqa: F811
+    """+ shared with C14: what is fitted is deepcopy(circuit) (target_fit_process_frame), so the constraints the user set are respected
+    only if the copy is faithful -- values, limits, FIXED FLAGS (both True and False, whatever the class default) and labels of
+    every element, sub-circuits of containers included"""
+    from . import c14
+    shared = [t for t in c14.targets() if "__copy__" in t[0] or "__deepcopy__" in t[0]]
+    return _targets_before_copies() + shared
